@@ -442,6 +442,10 @@ func runErrMap(c map[string]any) (any, error) {
 		return map[string]any{"http": c12RunHTTP(cfg, c["accept"], err), "grpc": c12RunGRPC(cfg, c["accept"], err)}, nil
 	case "mech":
 		return c12RunMech(c)
+	case "ctxprobe":
+		return c12RunCtxProbe(c)
+	case "wireprobe":
+		return c12RunWireProbe(c)
 	case "svc":
 		return c12RunServices(c)
 	case "cfgkeys":
